@@ -55,8 +55,11 @@ Definition sc_type_size (t : Z) : Z * option Z := (SUCCESS, Some (s32 (sc_mpi_si
 Definition pack_bytes (incount t : Z) : Z := s32 (s32 (sc_mpi_sizeof t) * incount).
 Definition sc_pack_size (incount t : Z) : Z * option Z := (SUCCESS, Some (pack_bytes incount t)).
 
-(* `*position + size > limit` in int arithmetic *)
-Definition pack_refuses (position size limit : Z) : bool := limit <? s32 (position + size).
+(* the space test `size > limit - *position` in int arithmetic (repair of F-C16c; for 0 <= position and 0 <= limit the
+   difference cannot overflow; position > limit gives a negative difference: refused for every size >= 0) *)
+Definition pack_refuses (position size limit : Z) : bool := s32 (limit - position) <? size.
+(* the test before the repair, `*position + size > limit`: kept as a regression guard (C16_pack_overflow_old_refuted) *)
+Definition pack_refuses_old (position size limit : Z) : bool := limit <? s32 (position + size).
 (* the memcpy of Pack / Unpack: (offset into the destination, offset into the source, (size_t) size) *)
 Definition pack_copy (position size : Z) : Z * Z * Z := (position, 0, u64 size).
 Definition unpack_copy (position size : Z) : Z * Z * Z := (0, position, u64 size).
@@ -66,6 +69,12 @@ Definition pack_advance (position size : Z) : Z := s32 (position + size).
 Definition sc_pack (inbuf : list Z) (incount t : Z) (outbuf : list Z) (outsize position : Z) : Z * option (list Z) * Z :=
   let size := pack_bytes incount t in
   if pack_refuses position size outsize then (ERR_NO_SPACE, Some outbuf, position)
+  else let '(d, s, n) := pack_copy position size in (SUCCESS, memcpy_at outbuf d inbuf s n, pack_advance position size).
+
+(* sc_MPI_Pack as it was before the repair *)
+Definition sc_pack_old (inbuf : list Z) (incount t : Z) (outbuf : list Z) (outsize position : Z) : Z * option (list Z) * Z :=
+  let size := pack_bytes incount t in
+  if pack_refuses_old position size outsize then (ERR_NO_SPACE, Some outbuf, position)
   else let '(d, s, n) := pack_copy position size in (SUCCESS, memcpy_at outbuf d inbuf s n, pack_advance position size).
 
 Definition sc_unpack (inbuf : list Z) (insize position : Z) (outbuf : list Z) (outcount t : Z) : Z * option (list Z) * Z :=
